@@ -31,6 +31,8 @@ def run(ctx):
             cachebfs.explore(ctx, Cfg(*g, kind, policy, 0, "full", k % 2 == 1, ("base", "neg", "top")[k % 3]), WANT, 3 if nwords <= 4 else 2)
             cachebfs.explore(ctx, Cfg(*g, kind, policy, 0, "word", k % 2 == 0, "mixed" if k % 2 else "base"), WANT, 6 if nwords <= 4 else (5 if nwords <= 6 else 3))
             k += 1
+        cachebfs.explore(ctx, Cfg(0, 0, 4, "wb", "plru", 0, "word", True, "base"), WANT, 4)
+        cachebfs.explore(ctx, Cfg(0, 0, 4, "wt", "plru", 0, "word", False, "base"), WANT, 4)
         cachebfs.explore(ctx, Cfg(12, 1, 1, ("wb", "wt")[seed % 2], "lru", 0, "word", True, "base"), WANT, 1)
         closure = [((0, 0, 2), "lru"), ((0, 0, 3), "lru"), ((1, 0, 2), "lru"), ((0, 0, 4), "plru"), ((0, 1, 2), "plru")]
     else:
